@@ -384,6 +384,58 @@ async def wide_responses(chk, rng, n):
         await a.finish()
 
 
+async def after_odd_set_statements(chk, rng):
+    """SET statements in unusual spellings (character set names in upper / mixed case, quoted or bare, unknown names, wrong
+    types) — whether the server accepts or rejects them is C14 / C15's business; here: each of them and every command after
+    them gets exactly one complete response, and the connection stays in step"""
+    from lib import Peer, RecSession, mkserver
+    from mysql_mimic import ResultColumn, ColumnType
+    stmts = ["SET NAMES 'UTF8MB4'", "SET NAMES Latin1", "SET CHARACTER SET 'Utf8'", "SET character_set_results = 'LATIN1'",
+             "SET character_set_client = 'LATIN1'", "SET NAMES utf8mb4 COLLATE UTF8MB4_GENERAL_CI", "SET character_set_results = 'nosuch'",
+             "SET character_set_results = 5", "SET character_set_results = NULL", "SET NAMES DEFAULT", "SET time_zone = 'Nowhere/City'",
+             "SET time_zone = '+25:00'", "SET sql_mode = 'ANSI,NOSUCHMODE'", "SET autocommit = 'maybe'"]
+    follow = [(b"\x03SELECT a FROM t", "rs"), (b"\x03SELECT a FROM boom", "err"), (b"\x02db2", "ok"), (b"\x03SELECT 1", "rs"),
+              (b"\x16SELECT ? FROM t", "prep"), (b"\x0e", "ok")]
+    for st in stmts:
+        for dep in (False, True):
+            def beh(sess, e, sql, attrs):
+                if "boom" in sql:
+                    raise RuntimeError("application failure")
+                return [(1, "x")], [ResultColumn("a", ColumnType.LONGLONG), ResultColumn("b", ColumnType.VARCHAR)]
+            s = RecSession(beh)
+            srv = mkserver([s])
+            a = Peer(srv)
+            caps = BASE | (C.CLIENT_DEPRECATE_EOF if dep else 0)
+            await a.login(caps=caps)
+            desc = dict(statement=st, deprecate_eof=dep)
+            chk.case(("odd-set", st, dep))
+            chk.count("after-odd-set")
+            out = await a.cmd(b"\x03" + st.encode(), n=40)
+            if len(out) != 1 or out[0][0] != 1 or out[0][1][:1] not in (b"\x00", b"\xff"):
+                chk.fail("a SET statement is not answered by exactly one OK or ERR", desc, [(q, p[:12].hex()) for q, p in out][:4])
+                await a.finish()
+                continue
+            for payload, kind in follow:
+                out = await a.cmd(payload, n=60)
+                pk = [p for _, p in out]
+                ok = bool(out) and [q for q, _ in out] == [(k + 1) % 256 for k in range(len(out))] and not a.done()
+                try:
+                    if ok and kind == "rs" and pk[0][:1] != b"\xff":
+                        decode_resultset(pk, a.caps)
+                    elif ok and kind == "prep" and pk[0][:1] != b"\xff":
+                        ok = pk[0][:1] == b"\x00"
+                    elif ok:
+                        ok = len(pk) == 1 and pk[0][:1] in (b"\x00", b"\xff")
+                except Exception as e:  # noqa
+                    ok = False
+                if not ok:
+                    chk.fail("a command after a SET statement in an unusual spelling does not get exactly one complete response",
+                             dict(desc, set_answer="OK" if out is None else None, command=payload[:24].decode("latin-1")),
+                             dict(packets=[(q, p[:12].hex()) for q, p in out][:4], connection_closed=a.done()))
+                    break
+            await a.finish()
+
+
 async def huge_row_then_failure(chk, rng, count):
     """a row whose packet spans two frames (payload ≥ 0xFFFFFF: a full frame, then the rest — or an empty frame) followed by a
     failing row source: the frames already written and the ones still buffered belong to ONE logical packet; the response
@@ -584,6 +636,7 @@ def main():
             await run_program(chk, rng, lines, impl, big=True)
         await wide_responses(chk, rng, 12 if not chk.thorough else 200)
         await huge_row_then_failure(chk, rng, 2 if not chk.thorough else 16)
+        await after_odd_set_statements(chk, rng)
         await interrupted_streams(chk, rng, 40 if not chk.thorough else 300)
 
     asyncio.run(go())
